@@ -39,7 +39,9 @@ def s2_integral(gr: npt.NDArray, gr_bins: npt.NDArray, ndim: int = 3) -> float:
     """
     y = gr * np.log(gr) - gr + 1
     y *= np.power(gr_bins, ndim - 1)
-    return np.trapz(y, gr_bins)
+    # np.trapz was removed in numpy 2 (renamed to np.trapezoid)
+    trapezoid = getattr(np, "trapezoid", None) or getattr(np, "trapz")
+    return trapezoid(y, gr_bins)
 
 
 class S2:
